@@ -258,6 +258,47 @@ CHECKS["C13"] = {
     "note": "Trusted: ElementTree parsing; tm composition (C04); the chain is strictly serial (as the property states).",
 }
 
+CHECKS["C09"] = {
+    "engine": "sa",
+    "technique": "structural sibling-symmetry rules on the IK kernel + value-numbering typestate (table freshness, FK write-back)",
+    "design_ref": "DESIGN.md section 4 C09",
+    "text": ("Decides the structural clauses of 'IK is exact geometry and FK inverts it' for all geometries and poses: the IK kernel "
+             "applies each plate's own transform to its own plate-fixed joint column and takes the norm of the difference with one "
+             "leg index over six legs (=> lengths depend only on the relative pose, by construction of T@[v;1]); its wrapper binds "
+             "poses, local joint tables and buffers by role; the FK joint tables are re-derived whenever the plate-fixed joints are "
+             "replaced (re-spun platforms solve FK for their own geometry); FK/IK/move/spinCustom end with derived state computed "
+             "from exactly the stored poses, so lengths reported after FK are recomputed geometry. Convergence of the solvers to "
+             "1e-3 is numerical and not decided."),
+    "note": "Trusted: SPFKinSpaceR's Newton iteration (not analysed numerically); tokens name one pose value per path.",
+}
+
+CHECKS["C10"] = {
+    "engine": "sa",
+    "technique": "interprocedural value-numbering typestate over all paths of class SP with constant propagation; ownership table; structural validation-chain rules; abstract call-tree recursion check",
+    "design_ref": "DESIGN.md section 4 C10",
+    "text": ("Decides for every operation history the structural invariant behind coherence: every public method maps a platform "
+             "whose joint positions / leg lengths / relative transform were computed by the one IK helper from exactly the stored "
+             "plate poses to such a platform again on every path (2500+ abstract exit states, corrective paths included); only the "
+             "listed writers touch derived state; each validator consults its own switch and constraint, never upgrades a False, "
+             "corrects only when allowed and re-validates deep enough; pure queries end with the poses they started with; no helper "
+             "can re-enter itself with unchanged constant arguments (every call returns). That the constraint predicates compute "
+             "the right geometry is not decided."),
+    "note": "Trusted: external solvers only call the closure they are given; a token names one pose value along a path.",
+}
+
+CHECKS["C11"] = {
+    "engine": "sa",
+    "technique": "structural layout / index-agreement rules and reaching-contribution sets (path-sensitive accumulation analysis)",
+    "design_ref": "DESIGN.md section 4 C11",
+    "text": ("Decides the structural necessary conditions of the Stewart Jacobian / statics clauses: inverse-Jacobian rows are the "
+             "Plucker coordinates [q_i x n_i ; n_i] of leg i (moment first, matching [omega; v] and [moment; force]) with bottom "
+             "joint and unit direction of the same leg, evaluated between a save and a restore of the poses; the wrench summation "
+             "uses point, direction and magnitude of the same leg; the load handed to the static solve in carryMassCalc is exactly "
+             "applied wrench + top plate weight + six shaft weights, motors and bottom plate only afterwards; Robot derives "
+             "jacobian() as pinv(inverseJacobian()). Derivative and equilibrium identities are numerical and not decided."),
+    "note": "Trusted: makeWrench / Wrench layout (C12); Robot statics table (C06).",
+}
+
 _PENDING = "rule module not yet built in this round (see DESIGN.md section 4 for the planned static rules)"
 for _i in range(1, 21):
     _p = "C%02d" % _i
